@@ -535,7 +535,9 @@ func (w *cWorld) exec(api API, o cOp) cRes {
 		r := api.NFSPROC3_READ(nt.READ3args{File: w.Files[o.File], Offset: nt.Offset3(o.Off), Count: nt.Count3(o.Cnt)})
 		return cRes{OK: r.Status == nt.NFS3_OK, Data: string(r.Resok.Data), Eof: r.Resok.Eof}
 	case "write":
-		r := api.NFSPROC3_WRITE(nt.WRITE3args{File: w.Files[o.File], Offset: nt.Offset3(o.Off), Count: nt.Count3(len(o.Data)), Stable: o.Stable, Data: []byte(o.Data)})
+		buf := []byte(o.Data)
+		r := api.NFSPROC3_WRITE(nt.WRITE3args{File: w.Files[o.File], Offset: nt.Offset3(o.Off), Count: nt.Count3(len(o.Data)), Stable: o.Stable, Data: buf})
+		scribble(buf)
 		return cRes{OK: r.Status == nt.NFS3_OK, Cnt: uint32(r.Resok.Count), Size: uint64(r.Resok.File_wcc.After.Attributes.Size)}
 	case "setattr":
 		r := api.NFSPROC3_SETATTR(nt.SETATTR3args{Object: w.Files[o.File], New_attributes: nt.Sattr3{Size: nt.Set_size3{Set_it: true, Size: nt.Size3(o.Size)}}})
@@ -547,7 +549,9 @@ func (w *cWorld) exec(api API, o cOp) cRes {
 		r := api.NFSPROC3_READ(nt.READ3args{File: nt.Nfs_fh3{Data: []byte(o.H)}, Offset: nt.Offset3(o.Off), Count: nt.Count3(o.Cnt)})
 		return cRes{OK: r.Status == nt.NFS3_OK, Data: string(r.Resok.Data), Eof: r.Resok.Eof}
 	case "writeh":
-		r := api.NFSPROC3_WRITE(nt.WRITE3args{File: nt.Nfs_fh3{Data: []byte(o.H)}, Offset: nt.Offset3(o.Off), Count: nt.Count3(len(o.Data)), Stable: o.Stable, Data: []byte(o.Data)})
+		buf := []byte(o.Data)
+		r := api.NFSPROC3_WRITE(nt.WRITE3args{File: nt.Nfs_fh3{Data: []byte(o.H)}, Offset: nt.Offset3(o.Off), Count: nt.Count3(len(o.Data)), Stable: o.Stable, Data: buf})
+		scribble(buf)
 		return cRes{OK: r.Status == nt.NFS3_OK, Cnt: uint32(r.Resok.Count), Size: uint64(r.Resok.File_wcc.After.Attributes.Size)}
 	case "setattrh":
 		r := api.NFSPROC3_SETATTR(nt.SETATTR3args{Object: nt.Nfs_fh3{Data: []byte(o.H)}, New_attributes: nt.Sattr3{Size: nt.Set_size3{Set_it: true, Size: nt.Size3(o.Size)}}})
